@@ -75,12 +75,27 @@ inductive VariantOrder where
   | declared
   deriving DecidableEq, Repr
 
+/-- Whose type variables the ARGUMENT's type mentions. -/
+inductive ScopeRule where
+  /-- repair 10: the caller's — opaque to the callee: never looked up in the bindings (which belong
+  to the parameter's variables), never skipped when spelled like the variable being bound, and a
+  structured parameter position cannot take one. -/
+  | callerOpaque
+  /-- the code before it: a variable in the argument's type is resolved through the callee's
+  bindings when it is spelled like one of them (a generic function calling another one with the
+  same type-parameter names), and binding a variable to a like-named variable is skipped. Crosswise
+  arguments make the bindings cyclic and the resolution never ends; `['a, 'a]` against `['a, 'int]`
+  binds `'a := 'int` only. -/
+  | sharedNames
+  deriving DecidableEq, Repr
+
 /-- The switches of the unification algorithm. `Rules.current` is the code as it is. -/
 structure Rules where
   unionArg : UnionArgRule := .everyVariant
   cycle : CycleRule := .lenient
   merge : MergeRule := .adopt
   order : VariantOrder := .structuredFirst
+  scope : ScopeRule := .callerOpaque
   deriving DecidableEq, Repr
 
 def Rules.current : Rules := {}
@@ -90,6 +105,8 @@ def Rules.beforeF6 : Rules := { unionArg := .anyVariant }
 def Rules.beforeMergeFix : Rules := { merge := .skipIncompatible }
 /-- the code before fix e097c86. -/
 def Rules.beforeOrderFix : Rules := { order := .declared }
+/-- the code before repair 10 (caller's and callee's type variables share one name space). -/
+def Rules.sharedNames : Rules := { scope := .sharedNames }
 
 /-! ### `contains_variables` -/
 
@@ -277,9 +294,9 @@ def unifyStep (rules : Rules) (cf : Nat) (rec : Table → Bindings → Nat → N
   -- pattern is a variable: bind it, or widen the existing binding
   | .variable name, _ =>
     let resolved : Nat :=
-      match ta with
-      | .variable cn => (b.get cn).getD a
-      | _ => a
+      match rules.scope, ta with
+      | .sharedNames, .variable cn => (b.get cn).getD a
+      | _, _ => a
     match b.get name with
     | some existing =>
       if existing ≠ resolved then
@@ -287,13 +304,16 @@ def unifyStep (rules : Rules) (cf : Nat) (rec : Table → Bindings → Nat → N
         some (T1, some (b.insert name w))
       else some (T, some b)
     | none =>
-      if T.types[resolved]? = some (.variable name) then some (T, some b)
+      if rules.scope = .sharedNames ∧ T.types[resolved]? = some (.variable name) then some (T, some b)
       else some (T, some (b.insert name resolved))
-  -- concrete is a variable: resolve it through the bindings
+  -- concrete is a variable: the caller's (opaque: Err); before repair 10 resolved through the bindings
   | _, .variable name =>
-    match b.get name with
-    | some r => rec T b p r
-    | none => some (T, none)
+    match rules.scope with
+    | .callerOpaque => some (T, none)
+    | .sharedNames =>
+      match b.get name with
+      | some r => rec T b p r
+      | none => some (T, none)
   | .integer, .integer => some (T, some b)
   | .binary, .binary => some (T, some b)
   | .process s1 r1, .process s2 r2 =>
@@ -302,7 +322,9 @@ def unifyStep (rules : Rules) (cf : Nat) (rec : Table → Bindings → Nat → N
     | some (T1, none) => some (T1, none)
     | some (T1, some b1) => unifyOpt rec T1 b1 r1 r2
   | .tuple i1, .tuple i2 =>
-    if i1 = i2 then some (T, some b)
+    -- the same tuple type on both sides needs no look inside — unless (repair 10) it mentions type
+    -- variables: the parameter's are the callee's, the argument's the caller's, spelled alike
+    if i1 = i2 ∧ (rules.scope = .sharedNames ∨ containsVariables T cf p = some false) then some (T, some b)
     else
       match T.tuples[i1]?, T.tuples[i2]? with
       | some info1, some info2 =>
